@@ -103,3 +103,18 @@ func factsBoot(o *out, mgr pkgFiles) {
 		ipsTest, leanStr(format), leanStr(defDomain), leanStr(consts["IstioMetaInstanceIPs"]), leanStr(consts["MetaNamespace"]),
 		leanStr(consts["IstioVersion"]), leanStrList(required))
 }
+
+// factsInit: the process-wide singleton (xds.Init, xdssuite.SetXDSResourceManager, xdssuite.XDSInited): Init returns
+// early only when a manager is installed, reports the construction error, and installs through the first-wins setter.
+func factsInit(o *out, root, suite pkgFiles) {
+	initB := bodyNorm(root.findFunc("", "Init"))
+	setB := bodyNorm(suite.findFunc("", "SetXDSResourceManager"))
+	inB := bodyNorm(suite.findFunc("", "XDSInited"))
+	ok := initB == "{ if xdssuite.XDSInited() { return nil } m, err := manager.NewXDSResourceManager(nil, opts...) if err != nil { return err } return xdssuite.SetXDSResourceManager(m) }" &&
+		setB == "{ xdsResourceManager.Lock() defer xdsResourceManager.Unlock() if xdsResourceManager.manager == nil { xdsResourceManager.manager = m } return nil }" &&
+		inB == "{ xdsResourceManager.RLock() inited := xdsResourceManager.manager != nil xdsResourceManager.RUnlock() return inited }"
+	if !ok {
+		o.note("init: Init %q / SetXDSResourceManager %q / XDSInited %q", initB, setB, inB)
+	}
+	o.line("def initShape : Bool := %s", leanBool(ok))
+}
